@@ -18,7 +18,7 @@ OUTSIDE = ['frames that differ by less than 1e-8 but are not identical (the libr
            'floating point']
 ASSUMPTIONS = ['summary mode for Exp/Log under composition (contracts from C01)']
 EXPLORER_DEFAULTS = {'quick': dict(prove_timeout_ms=30000, time_budget_s=600, max_paths=300),
-                     'thorough': dict(prove_timeout_ms=120000, time_budget_s=2400, max_paths=2000)}
+                     'thorough': dict(prove_timeout_ms=120000, time_budget_s=1200, max_paths=2000)}
 TOL = '1e-8'
 
 
